@@ -58,10 +58,34 @@ def table():
             return [a, b], lambda M, x, y: getattr(M, nm)(x, y), {}, []
         T[nm] = mk
     for nm in ("add", "subtract", "multiply", "equal", "not_equal", "greater", "greater_equal", "less", "less_equal",
-               "maximum", "minimum", "logical_and", "logical_or", "isclose", "allclose"):
+               "maximum", "minimum", "logical_and", "logical_or"):
         binary(nm)
     for nm in ("floor_divide", "divide", "remainder", "divmod"):
         binary(nm, None, True)
+
+    def closeness(nm):
+        # tolerances given positionally (numpy's order: rtol, atol), by keyword, or left out; values chosen so that the
+        # two tolerances matter differently
+        def mk(r):
+            sa, sb = gen.gen_shape_pair(r)
+            if r.random() < .7:
+                sb = sa
+            a = arr(r, sa, "float") * 2.0
+            b = (a if sb == sa else arr(r, sb, "float") * 2.0) + r.choice([0.0, 0.05, 0.25, -0.25, 0.5], size=sb)
+            rtol, atol = [(0.3, 0.05), (0.05, 0.3), (0.0, 0.25), (0.25, 0.0)][int(r.integers(4))]
+            how = gen.choice(r, ["positional", "keyword", "default", "rtol-only"])
+            if how == "positional":
+                f = lambda M, x, y: getattr(M, nm)(x, y, rtol, atol)
+            elif how == "keyword":
+                f = lambda M, x, y: getattr(M, nm)(x, y, atol=atol, rtol=rtol)
+            elif how == "rtol-only":
+                f = lambda M, x, y: getattr(M, nm)(x, y, rtol)
+            else:
+                f = lambda M, x, y: getattr(M, nm)(x, y)
+            return [a, b], f, {"rtol": rtol, "atol": atol, "how": how}, []
+        T[nm] = mk
+    closeness("isclose")
+    closeness("allclose")
     T["power"] = lambda r: (lambda k: ([arr(r, kind="int")], lambda M, a: M.power(a, k), {"exponent": k}, []))(int(r.integers(0, 4)))
 
     def reduction(nm, keepdims=True, tuples=False, kind=None):
